@@ -2,6 +2,916 @@
 //! layout.rs / gsub.rs / gpos.rs / gdef.rs and the closure modules (Coverage / ClassDef lookups and iterators, Device / VariationIndex decoding, lookup-list walking, context rule walking, FeatureVariations conditions)
 //! with Model/HandLayout.lean (`hl.*` driver commands), on generator-based inputs with truncations and
 //! boundary fields; plus the group's own byte-level oracles.
+//!
+//! Commands (Drv/C01HandLayout.lean):
+//!   hl.cov  <hex> <gid…>            CoverageTable::read + population + iter digest + get per gid
+//!   hl.covx <hex> <set> | <set> …   CoverageTable::intersects per set; RangeRecord::{population, iter, intersects}
+//!   hl.cls  <hex> <gid…>            ClassDef::read + population + iter digest + record populations + get per gid
+//!   hl.dev  <hex>                   Device::read + iter | DeviceOrVariationIndex::read (+ DeltaSetIndex::from)
 use super::*;
+use font_types::{GlyphId, GlyphId16};
+use read_fonts::collections::IntSet;
+use read_fonts::tables::layout::{ClassDef, CoverageTable, Device, DeviceOrVariationIndex};
+use read_fonts::tables::variations::DeltaSetIndex;
+use read_fonts::{FontData, FontRead, ReadError};
 
-pub fn run(_ctx: &mut Ctx) {}
+// ------------------------------------------------------------------------------------------------
+// plumbing
+
+fn err_str(e: &ReadError) -> String {
+    match e {
+        ReadError::OutOfBounds => "e:O".into(),
+        ReadError::InvalidFormat(n) => format!("e:F{n}"),
+        ReadError::NullOffset => "e:N".into(),
+        ReadError::InvalidArrayLen => "e:L".into(),
+        other => format!("e:?{other:?}"),
+    }
+}
+
+/// `digest` of Drv/C01HandLayout.lean: `<count> <Drv.C01Iter.fnv>`; for more than 2100 items the hash
+/// covers the first 2000 and the last 100
+struct Fnv {
+    n: usize,
+    head: Vec<u64>,
+    tail: std::collections::VecDeque<u64>,
+}
+
+impl Fnv {
+    fn new() -> Fnv {
+        Fnv { n: 0, head: vec![], tail: Default::default() }
+    }
+    fn add(&mut self, x: u64) {
+        self.n += 1;
+        if self.head.len() < 2100 {
+            self.head.push(x);
+        }
+        self.tail.push_back(x);
+        if self.tail.len() > 100 {
+            self.tail.pop_front();
+        }
+    }
+    fn digest(&self) -> String {
+        let mut h = 14695981039346656037u64;
+        let mut eat = |x: u64| h = (h ^ x).wrapping_mul(1099511628211);
+        if self.n > 2100 {
+            self.head[..2000].iter().for_each(|x| eat(*x));
+            self.tail.iter().for_each(|x| eat(*x));
+        } else {
+            self.head.iter().for_each(|x| eat(*x));
+        }
+        format!("{} {}", self.n, h)
+    }
+}
+
+/// drain an iterator into an FNV digest, at most `cap` items (`cap` exceeded = oracle failure)
+fn drain_fnv<I: Iterator>(ctx: &mut Ctx, name: &str, cap: usize, what: &str, bytes: &[u8], it: I, f: impl Fn(I::Item) -> u64) -> String {
+    let mut d = Fnv::new();
+    let mut over = false;
+    for x in it {
+        if d.n >= cap {
+            over = true;
+            break;
+        }
+        d.add(f(x));
+    }
+    ctx.oracle(name, !over, || format!("{what} {}", hex(bytes)), || format!("more than {cap} items"));
+    d.digest()
+}
+
+/// one correspondence case: `f` computes the implementation's response (inside `catch`)
+fn ask(ctx: &mut Ctx, req: String, bytes: &[u8], f: impl FnOnce(&mut Ctx) -> String) {
+    PROGRESS.fetch_add(1, Ordering::Relaxed);
+    // `ctx` is only used for oracles / counters inside `f`; a panic leaves it consistent
+    let r = catch(std::panic::AssertUnwindSafe(|| f(ctx)));
+    match r {
+        Ok(s) => {
+            ctx.oracle("no-panic", true, String::new, String::new);
+            ctx.case(req, s);
+        }
+        Err(m) => ctx.oracle("no-panic", false, || format!("{req} [{}]", hex(bytes)), || format!("panicked: {m}")),
+    }
+}
+
+fn r16(b: &[u8], at: usize) -> Option<u16> {
+    b.get(at..at + 2).map(|s| u16::from_be_bytes([s[0], s[1]]))
+}
+
+fn put_be(v: &mut [u8], pos: usize, w: u8, x: u64) {
+    for i in 0..w as usize {
+        v[pos + i] = (x >> (8 * (w as usize - 1 - i))) as u8;
+    }
+}
+
+fn get_be(v: &[u8], pos: usize, w: u8) -> u64 {
+    let mut x = 0u64;
+    for i in 0..w as usize {
+        x = (x << 8) | v[pos + i] as u64;
+    }
+    x
+}
+
+/// the base, every prefix truncation, every registered field at boundary values, a few flips
+fn variants(rng: &mut Rng, b: &B, flips: usize) -> Vec<Vec<u8>> {
+    let n = b.v.len();
+    let mut out = vec![b.v.clone()];
+    for c in 0..n {
+        out.push(b.v[..c].to_vec());
+    }
+    for (p, w) in &b.fields {
+        if *p + *w as usize > n {
+            continue;
+        }
+        let max = (1u64 << (8 * *w as u32)) - 1;
+        let cur = get_be(&b.v, *p, *w);
+        let rest = (n - *p) as u64;
+        let mut vals = vec![0, 1, 2, max - 1, max, max / 2, max / 2 + 1, n as u64, rest / 2, rest / 6, rest / 6 + 1, cur.wrapping_add(1), cur.wrapping_sub(1)];
+        vals.sort();
+        vals.dedup();
+        for v in vals {
+            let v = v & max;
+            if v == cur {
+                continue;
+            }
+            let mut m = b.v.clone();
+            put_be(&mut m, *p, *w, v);
+            out.push(m);
+        }
+    }
+    for _ in 0..flips {
+        if n == 0 {
+            break;
+        }
+        let mut m = b.v.clone();
+        for _ in 0..1 + rng.below(2) {
+            let p = rng.below(n as u64) as usize;
+            m[p] = match rng.below(4) {
+                0 => 0,
+                1 => 0xFF,
+                2 => m[p] ^ (1 << rng.below(8)),
+                _ => rng.next() as u8,
+            };
+        }
+        out.push(m);
+    }
+    out
+}
+
+// ------------------------------------------------------------------------------------------------
+// generators (after hand/layout.rs)
+
+fn cov1(gl: &[u16], reg: bool) -> B {
+    let mut b = B::new();
+    b.u16(1).f16(gl.len() as u16);
+    for g in gl {
+        if reg {
+            b.f16(*g);
+        } else {
+            b.u16(*g);
+        }
+    }
+    b
+}
+
+fn cov2(r: &[(u16, u16, u16)], reg: bool) -> B {
+    let mut b = B::new();
+    b.u16(2).f16(r.len() as u16);
+    for (s, e, i) in r {
+        if reg {
+            b.f16(*s).f16(*e).f16(*i);
+        } else {
+            b.u16(*s).u16(*e).u16(*i);
+        }
+    }
+    b
+}
+
+fn sorted_glyphs(rng: &mut Rng, uni: u32, n: usize) -> Vec<u16> {
+    let mut v: Vec<u16> = (0..n).map(|_| rng.below(uni as u64) as u16).collect();
+    v.sort();
+    v.dedup();
+    v
+}
+
+fn sorted_ranges(rng: &mut Rng, uni: u32, n: usize) -> Vec<(u16, u16)> {
+    let mut out = vec![];
+    let mut at = rng.below(4) as u32;
+    for _ in 0..n {
+        let len = if rng.chance(1, 12) { rng.below(300) as u32 } else { rng.below(5) as u32 };
+        let end = at + len;
+        if end >= uni {
+            break;
+        }
+        out.push((at as u16, end as u16));
+        at = end + 1 + rng.below(4) as u32;
+    }
+    out
+}
+
+fn cov_good(rng: &mut Rng, uni: u32, reg: bool) -> B {
+    if rng.chance(1, 2) {
+        let n = rng.below(9) as usize;
+        let g = sorted_glyphs(rng, uni, n);
+        cov1(&g, reg)
+    } else {
+        let n = rng.below(6) as usize;
+        let r = sorted_ranges(rng, uni, n);
+        let mut recs = vec![];
+        let mut ix = 0u32;
+        for (s, e) in &r {
+            recs.push((*s, *e, ix as u16));
+            ix += (*e - *s) as u32 + 1;
+        }
+        cov2(&recs, reg)
+    }
+}
+
+/// coverage in every hostile-but-parsable shape
+fn cov_any(rng: &mut Rng, uni: u32, reg: bool) -> B {
+    match rng.below(13) {
+        0 | 1 | 2 => cov_good(rng, uni, reg),
+        3 => {
+            // unsorted / duplicated glyph array
+            let n = 1 + rng.below(8) as usize;
+            let g: Vec<u16> = (0..n).map(|_| rng.below(uni as u64) as u16).collect();
+            cov1(&g, reg)
+        }
+        4 => {
+            // overlapping, unsorted ranges
+            let n = 1 + rng.below(5) as usize;
+            let r: Vec<(u16, u16, u16)> = (0..n)
+                .map(|_| {
+                    let s = rng.below(uni as u64) as u16;
+                    (s, s.saturating_add(rng.below(6) as u16), rng.below(20) as u16)
+                })
+                .collect();
+            cov2(&r, reg)
+        }
+        5 => {
+            // reversed ranges (start > end)
+            let n = 1 + rng.below(4) as usize;
+            let r: Vec<(u16, u16, u16)> = (0..n)
+                .map(|k| {
+                    let s = rng.below(uni as u64) as u16;
+                    if k % 2 == 0 {
+                        (s.saturating_add(1 + rng.below(5) as u16), s, k as u16)
+                    } else {
+                        (s, s.saturating_add(2), k as u16)
+                    }
+                })
+                .collect();
+            cov2(&r, reg)
+        }
+        6 => {
+            // start_coverage_index + (gid - start) around 0xFFFF
+            let s = rng.below(uni as u64) as u16;
+            let len = 1 + rng.below(6) as u16;
+            let ix = 0xFFFFu16 - rng.below(len as u64 + 2) as u16;
+            cov2(&[(s, s.saturating_add(len), ix)], reg)
+        }
+        7 => {
+            // ranges / glyphs at the top of the glyph space
+            if rng.chance(1, 2) {
+                let s = 0xFFFF - rng.below(6) as u16;
+                cov2(&[(0, 2, 0), (s, 0xFFFF, 3)], reg)
+            } else {
+                cov1(&[0, 1, 0xFFFE, 0xFFFF], reg)
+            }
+        }
+        8 => {
+            if rng.chance(1, 2) {
+                cov1(&[], reg)
+            } else {
+                cov2(&[], reg)
+            }
+        }
+        9 => {
+            // one large range (the iterator's item bound)
+            let e = if rng.chance(1, 4) { 0xFFFF } else { 200 + rng.below(3000) as u16 };
+            cov2(&[(rng.below(3) as u16, e, rng.below(3) as u16)], reg)
+        }
+        10 => {
+            // adjacent / touching ranges with equal bounds
+            let s = rng.below(uni as u64) as u16;
+            cov2(&[(s, s, 0), (s, s, 1), (s.saturating_add(1), s.saturating_add(1), 2)], reg)
+        }
+        11 => {
+            // many entries: the `glyph_count > len * num_bits / 2` branch of `intersects`
+            if rng.chance(1, 2) {
+                let n = 12 + rng.below(30) as usize;
+                let mut g = sorted_glyphs(rng, uni.max(64), n);
+                if rng.chance(1, 3) {
+                    rng.shuffle(&mut g);
+                }
+                cov1(&g, false)
+            } else {
+                let n = 8 + rng.below(12) as usize;
+                let mut r: Vec<(u16, u16, u16)> = sorted_ranges(rng, uni.max(200), n).into_iter().enumerate().map(|(k, (s, e))| (s, e, 3 * k as u16)).collect();
+                if rng.chance(1, 3) {
+                    rng.shuffle(&mut r);
+                }
+                cov2(&r, false)
+            }
+        }
+        _ => {
+            // invalid format
+            let mut b = B::new();
+            b.u16(*rng.pick(&[0u16, 3, 0x100, 0xFFFF])).f16(1).u16(5).u16(6).u16(7);
+            b
+        }
+    }
+}
+
+fn class1(start: u16, vals: &[u16], reg: bool) -> B {
+    let mut b = B::new();
+    b.u16(1);
+    if reg {
+        b.f16(start);
+    } else {
+        b.u16(start);
+    }
+    b.f16(vals.len() as u16);
+    for v in vals {
+        b.u16(*v);
+    }
+    b
+}
+
+fn class2(r: &[(u16, u16, u16)], reg: bool) -> B {
+    let mut b = B::new();
+    b.u16(2).f16(r.len() as u16);
+    for (s, e, c) in r {
+        if reg {
+            b.f16(*s).f16(*e).u16(*c);
+        } else {
+            b.u16(*s).u16(*e).u16(*c);
+        }
+    }
+    b
+}
+
+fn class_good(rng: &mut Rng, uni: u32, n_classes: u16, reg: bool) -> B {
+    if rng.chance(1, 2) {
+        let start = rng.below(uni as u64 / 2 + 1) as u16;
+        let n = rng.below(10) as usize;
+        let vals: Vec<u16> = (0..n).map(|_| rng.below(n_classes as u64 + 1) as u16).collect();
+        class1(start, &vals, reg)
+    } else {
+        let n = rng.below(6) as usize;
+        let r = sorted_ranges(rng, uni, n);
+        let recs: Vec<(u16, u16, u16)> = r.into_iter().map(|(s, e)| (s, e, rng.below(n_classes as u64 + 1) as u16)).collect();
+        class2(&recs, reg)
+    }
+}
+
+fn class_any(rng: &mut Rng, uni: u32, n_classes: u16, reg: bool) -> B {
+    match rng.below(10) {
+        0 | 1 | 2 => class_good(rng, uni, n_classes, reg),
+        3 => {
+            // start_glyph_id + glyph_count beyond 0xFFFF (the iterator's saturating add)
+            let n = 1 + rng.below(8) as u16;
+            let start = 0xFFFFu16 - rng.below(n as u64 + 1) as u16;
+            let vals: Vec<u16> = (0..n).map(|k| k % (n_classes + 1)).collect();
+            class1(start, &vals, reg)
+        }
+        4 => {
+            // reversed + overlapping + unsorted ranges
+            let n = 1 + rng.below(5) as usize;
+            let r: Vec<(u16, u16, u16)> = (0..n)
+                .map(|k| {
+                    let s = rng.below(uni as u64) as u16;
+                    let e = if k % 2 == 0 { s.saturating_sub(rng.below(4) as u16) } else { s.saturating_add(rng.below(6) as u16) };
+                    (s, e, rng.below(n_classes as u64 + 2) as u16)
+                })
+                .collect();
+            class2(&r, reg)
+        }
+        5 => class2(&[(0, 1, 1), (0xFFFF - rng.below(4) as u16, 0xFFFF, 2)], reg),
+        6 => {
+            if rng.chance(1, 2) {
+                class1(rng.below(uni as u64) as u16, &[], reg)
+            } else {
+                class2(&[], reg)
+            }
+        }
+        7 => class2(&[(rng.below(3) as u16, if rng.chance(1, 4) { 0xFFFF } else { 500 + rng.below(2000) as u16 }, 1)], reg),
+        8 => {
+            // many sorted ranges: deeper binary searches
+            let n = 6 + rng.below(10) as usize;
+            let r: Vec<(u16, u16, u16)> = sorted_ranges(rng, uni.max(200), n).into_iter().map(|(s, e)| (s, e, 1 + rng.below(3) as u16)).collect();
+            class2(&r, false)
+        }
+        _ => {
+            let mut b = B::new();
+            b.u16(*rng.pick(&[0u16, 3, 0x200, 0xFFFF])).f16(1).f16(1).u16(1).u16(2);
+            b
+        }
+    }
+}
+
+/// pack deltas MSB first, `bits` per value
+fn pack_deltas(vals: &[i8], bits: u32) -> Vec<u16> {
+    let per = (16 / bits) as usize;
+    let mask = (1u32 << bits) - 1;
+    vals.chunks(per)
+        .map(|c| {
+            let mut w = 0u32;
+            for (i, v) in c.iter().enumerate() {
+                w |= ((*v as i32 as u32) & mask) << (16 - bits * (i as u32 + 1));
+            }
+            w as u16
+        })
+        .collect()
+}
+
+fn device(start: u16, end: u16, fmt: u16, words: &[u16]) -> B {
+    let mut b = B::new();
+    b.f16(start).f16(end).f16(fmt);
+    for w in words {
+        b.u16(*w);
+    }
+    b
+}
+
+/// Device (formats 1..3, possibly hostile) or VariationIndex
+fn device_any(rng: &mut Rng) -> B {
+    let fmt = *rng.pick(&[1u16, 1, 2, 2, 3, 3, 0x8000, 0, 4, 0x7FFF, 0xFFFF]);
+    if fmt == 0x8000 && rng.chance(2, 3) {
+        let mut b = B::new();
+        b.u16(rng.next() as u16).u16(rng.next() as u16).f16(0x8000);
+        return b;
+    }
+    let (start, end) = match rng.below(8) {
+        0 => {
+            // start_size > end_size
+            let e = rng.below(40) as u16;
+            (e + 1 + rng.below(5) as u16, e)
+        }
+        1 => (0xFFFF, 0xFFFF),
+        2 => {
+            let s = 0xFFFF - rng.below(20) as u16;
+            (s, 0xFFFF)
+        }
+        _ => {
+            let s = rng.below(30) as u16;
+            (s, s + rng.below(20) as u16)
+        }
+    };
+    let n = (end as usize + 1).saturating_sub(start as usize);
+    let bits = match fmt {
+        1 => 2,
+        2 => 4,
+        3 => 8,
+        _ => 0,
+    };
+    let words: Vec<u16> = if bits == 0 {
+        (0..rng.below(5)).map(|_| rng.next() as u16).collect()
+    } else {
+        let vals: Vec<i8> = (0..n).map(|_| rng.next() as i8 >> (8 - bits)).collect();
+        let mut w = pack_deltas(&vals, bits);
+        if rng.chance(1, 6) {
+            w.pop(); // delta_value array one word short
+        }
+        if rng.chance(1, 6) {
+            w.push(rng.next() as u16); // trailing bytes
+        }
+        w
+    };
+    device(start, end, fmt, &words)
+}
+
+// ------------------------------------------------------------------------------------------------
+// Coverage
+
+/// (format, ranges (start, end, start index) as the bytes spell them — format 1 glyphs as one-glyph
+/// ranges —, Σ max(0, end − start + 1)) of the records that are wholly inside the data
+fn cov_raw(bytes: &[u8]) -> (u16, Vec<(u32, u32, u32)>, usize) {
+    let fmt = r16(bytes, 0).unwrap_or(0);
+    let n = r16(bytes, 2).unwrap_or(0) as usize;
+    let mut recs = vec![];
+    let mut pop = 0usize;
+    match fmt {
+        1 => {
+            for k in 0..n {
+                let Some(g) = r16(bytes, 4 + 2 * k) else { break };
+                recs.push((g as u32, g as u32, k as u32));
+                pop += 1;
+            }
+        }
+        2 => {
+            for k in 0..n {
+                let (Some(s), Some(e), Some(i)) = (r16(bytes, 4 + 6 * k), r16(bytes, 6 + 6 * k), r16(bytes, 8 + 6 * k)) else { break };
+                if e >= s {
+                    pop += (e - s) as usize + 1;
+                }
+                recs.push((s as u32, e as u32, i as u32));
+            }
+        }
+        _ => {}
+    }
+    (fmt, recs, pop)
+}
+
+fn cov_gids(rng: &mut Rng, bytes: &[u8]) -> Vec<u32> {
+    let (_, recs, _) = cov_raw(bytes);
+    let mut vals: Vec<u32> = vec![];
+    for (s, e, _) in recs.iter().take(8) {
+        vals.push(*s);
+        vals.push(*e);
+        vals.push((*s + *e) / 2);
+    }
+    let mut gids: Vec<u32> = edge16(&vals).into_iter().map(|g| g as u32).collect();
+    gids.extend([0x1_0000, 0x1_0001, 0x7FFF_FFFF, u32::MAX]);
+    if let Some((s, _, _)) = recs.first() {
+        gids.push(0x1_0000 + *s);
+    }
+    for _ in 0..3 {
+        gids.push(rng.below(0x1_0000) as u32);
+    }
+    gids
+}
+
+fn cov_case(ctx: &mut Ctx, bytes: &[u8]) {
+    let gids = cov_gids(&mut ctx.rng, bytes);
+    let req = format!("hl.cov {} {}", hex(bytes), join(&gids));
+    ask(ctx, req, bytes, |ctx| {
+        let cov = match CoverageTable::read(FontData::new(bytes)) {
+            Err(e) => {
+                ctx.count(&format!("cov.read.{}", &err_str(&e)[..3]));
+                return err_str(&e);
+            }
+            Ok(c) => c,
+        };
+        let (fmt, recs, raw_pop) = cov_raw(bytes);
+        ctx.count(&format!("cov.read.ok.f{fmt}"));
+        let (f, pop) = match &cov {
+            CoverageTable::Format1(t) => ("f1", t.population()),
+            CoverageTable::Format2(t) => ("f2", t.population()),
+        };
+        ctx.oracle("cov.population", pop == raw_pop, || format!("population {}", hex(bytes)), || format!("{pop} vs byte-level {raw_pop}"));
+        // the iterator yields at most Σ range lengths ≤ 65536 · ranges items, each inside a range
+        let it = drain_fnv(ctx, "cov.iter-bounded", raw_pop, "coverage.iter", bytes, cov.iter(), |g| g.to_u16() as u64);
+        let in_range = cov.iter().take(4096).all(|g| recs.iter().any(|(s, e, _)| *s <= g.to_u16() as u32 && g.to_u16() as u32 <= *e));
+        ctx.oracle("cov.iter-in-range", in_range, || format!("coverage.iter {}", hex(bytes)), || "a glyph outside every range".into());
+        let mut gets = vec![];
+        for g in &gids {
+            let r = cov.get(GlyphId::new(*g));
+            // an index is returned only for a glyph some record covers, and it is that record's index
+            let ok = match r {
+                None => true,
+                Some(i) => *g <= 0xFFFF && recs.iter().any(|(s, e, ix)| *s <= *g && *g <= *e && *ix + (*g - *s) == i as u32),
+            };
+            ctx.oracle("cov.get-covered", ok, || format!("get({g}) {}", hex(bytes)), || format!("{r:?} for a glyph no record covers with that index"));
+            match r {
+                Some(_) => ctx.count(&format!("cov.get.{f}.some")),
+                None if *g > 0xFFFF => ctx.count(&format!("cov.get.{f}.gid>u16")),
+                None => {
+                    // covered by a record but no index: unsorted data or `checked_add` overflow
+                    let covered = recs.iter().find(|(s, e, _)| *s <= *g && *g <= *e);
+                    match covered {
+                        Some((s, _, ix)) if fmt == 2 && *ix + (*g - *s) > 0xFFFF => ctx.count("cov.get.f2.index-overflow"),
+                        Some(_) => ctx.count(&format!("cov.get.{f}.missed-unsorted")),
+                        None => ctx.count(&format!("cov.get.{f}.none")),
+                    }
+                }
+            }
+            gets.push(r.map(|i| i.to_string()).unwrap_or("n".into()));
+        }
+        format!("{f} {pop} {it} | {}", join(&gets))
+    });
+}
+
+fn gset(gids: &[u32]) -> IntSet<GlyphId> {
+    gids.iter().map(|g| GlyphId::new(*g)).collect()
+}
+
+/// glyph sets (ascending member lists) around the values a table mentions
+fn cov_sets(rng: &mut Rng, bytes: &[u8]) -> Vec<Vec<u32>> {
+    let (_, recs, _) = cov_raw(bytes);
+    let mut sets: Vec<Vec<u32>> = vec![vec![]];
+    let firsts: Vec<u32> = recs.iter().take(3).map(|r| r.0).collect();
+    sets.push(firsts);
+    if let Some((s, e, _)) = recs.first() {
+        sets.push(vec![s.wrapping_sub(1) & 0xFFFF_FFFF, 0x1_0000, u32::MAX]);
+        sets.push(vec![e + 1]);
+        sets.push(vec![*e]);
+    }
+    if let Some((s, e, _)) = recs.last() {
+        sets.push(vec![(*s + *e) / 2]);
+        sets.push(vec![*e, 0x2_0000]);
+    }
+    // a single member no record starts with (only found by a table whose data is sorted)
+    if let Some((_, e, _)) = recs.get(recs.len() / 2) {
+        sets.push(vec![*e]);
+    }
+    // many members, none / one of them in the table: the other branch of the cost comparison
+    let many: Vec<u32> = (0x1_0000..0x1_0040).collect();
+    sets.push(many.clone());
+    let mut many1 = vec![recs.get(1).map(|r| r.1).unwrap_or(7)];
+    many1.extend(many);
+    sets.push(many1);
+    let n = 1 + rng.below(5);
+    sets.push((0..n).map(|_| rng.below(400) as u32).collect());
+    for s in sets.iter_mut() {
+        s.sort();
+        s.dedup();
+    }
+    sets
+}
+
+fn covx_case(ctx: &mut Ctx, bytes: &[u8]) {
+    let sets = cov_sets(&mut ctx.rng, bytes);
+    let req = format!("hl.covx {} {}", hex(bytes), sets.iter().map(|s| join(s)).collect::<Vec<_>>().join(" | "));
+    ask(ctx, req, bytes, |ctx| {
+        let cov = match CoverageTable::read(FontData::new(bytes)) {
+            Err(e) => return err_str(&e),
+            Ok(c) => c,
+        };
+        let (fmt, recs, _) = cov_raw(bytes);
+        let isets: Vec<IntSet<GlyphId>> = sets.iter().map(|s| gset(s)).collect();
+        let mut whole = String::new();
+        for (s, is) in sets.iter().zip(&isets) {
+            let r = cov.intersects(is);
+            // branch taken by the cost comparison (recomputed) and the specification on sorted data
+            let count = r16(bytes, 2).unwrap_or(0) as u64;
+            let bits = 64 - count.leading_zeros() as u64;
+            let lookup_branch = count > (s.len() as u64).saturating_mul(bits) / 2;
+            ctx.count(&format!("covx.f{fmt}.{}.{}", if lookup_branch { "lookup-members" } else { "scan-records" }, r as u8));
+            let spec = s.iter().any(|g| recs.iter().any(|(a, b, _)| a <= g && g <= b));
+            // never a false positive; on scan-records the answer is exact
+            let ok = if lookup_branch { !r || spec } else { r == spec };
+            ctx.oracle("cov.intersects-spec", ok, || format!("intersects({s:?}) {}", hex(bytes)), || format!("{r} but specification {spec}"));
+            whole.push(if r { '1' } else { '0' });
+        }
+        let mut per = vec![];
+        if let CoverageTable::Format2(t) = &cov {
+            for rec in t.range_records().iter().take(4) {
+                let (s, e) = (rec.start_glyph_id().to_u16() as usize, rec.end_glyph_id().to_u16() as usize);
+                let p = if e >= s { e - s + 1 } else { 0 };
+                ctx.count(if e >= s { "range.population.forward" } else { "range.population.inverted" });
+                let it = drain_fnv(ctx, "range.iter-bounded", p, "range_record.iter", bytes, rec.iter(), |g| g.to_u16() as u64);
+                let ints: String = isets.iter().map(|is| if rec.intersects(is) { '1' } else { '0' }).collect();
+                per.push(format!("{}:{}:{}", rec.population(), it, ints));
+            }
+        }
+        format!("{whole} {}", join(&per))
+    });
+}
+
+// ------------------------------------------------------------------------------------------------
+// ClassDef
+
+fn class_raw(bytes: &[u8]) -> (u16, Vec<(u32, u32, u32)>, usize) {
+    let fmt = r16(bytes, 0).unwrap_or(0);
+    let mut recs = vec![];
+    let mut pop = 0usize;
+    match fmt {
+        1 => {
+            let s = r16(bytes, 2).unwrap_or(0) as u32;
+            let n = r16(bytes, 4).unwrap_or(0) as usize;
+            pop = n;
+            for k in 0..n {
+                let Some(c) = r16(bytes, 6 + 2 * k) else { break };
+                recs.push((s + k as u32, s + k as u32, c as u32));
+            }
+        }
+        2 => {
+            let n = r16(bytes, 2).unwrap_or(0) as usize;
+            for k in 0..n {
+                let (Some(s), Some(e), Some(c)) = (r16(bytes, 4 + 6 * k), r16(bytes, 6 + 6 * k), r16(bytes, 8 + 6 * k)) else { break };
+                if e >= s {
+                    pop += (e - s) as usize + 1;
+                }
+                recs.push((s as u32, e as u32, c as u32));
+            }
+        }
+        _ => {}
+    }
+    (fmt, recs, pop)
+}
+
+fn cls_case(ctx: &mut Ctx, bytes: &[u8]) {
+    let (fmt, recs, raw_pop) = class_raw(bytes);
+    let mut vals: Vec<u32> = vec![];
+    if fmt == 1 {
+        let s = r16(bytes, 2).unwrap_or(0) as u32;
+        let n = r16(bytes, 4).unwrap_or(0) as u32;
+        vals.extend([s, s + n, s + n / 2]);
+    } else {
+        for (s, e, _) in recs.iter().take(8) {
+            vals.extend([*s, *e, (*s + *e) / 2]);
+        }
+    }
+    let mut gids = edge16(&vals);
+    for _ in 0..3 {
+        gids.push(ctx.rng.below(0x1_0000) as u16);
+    }
+    let req = format!("hl.cls {} {}", hex(bytes), join(&gids));
+    ask(ctx, req, bytes, |ctx| {
+        let cd = match ClassDef::read(FontData::new(bytes)) {
+            Err(e) => {
+                ctx.count(&format!("cls.read.{}", &err_str(&e)[..3]));
+                return err_str(&e);
+            }
+            Ok(c) => c,
+        };
+        ctx.count(&format!("cls.read.ok.f{fmt}"));
+        let pop = cd.population();
+        ctx.oracle("cls.population", pop == raw_pop, || format!("population {}", hex(bytes)), || format!("{pop} vs byte-level {raw_pop}"));
+        let it = {
+            let mut d = Fnv::new();
+            let mut over = false;
+            let mut saturated = false;
+            for (g, c) in cd.iter() {
+                if d.n >= 2 * raw_pop {
+                    over = true;
+                    break;
+                }
+                saturated |= fmt == 1 && g.to_u16() == 0xFFFF;
+                d.add(g.to_u16() as u64);
+                d.add(c as u64);
+            }
+            if saturated {
+                ctx.count("cls.iter.f1.reached-ffff");
+            }
+            ctx.oracle("cls.iter-bounded", !over, || format!("classdef.iter {}", hex(bytes)), || format!("more than {raw_pop} items"));
+            d.digest()
+        };
+        let mut per = vec![];
+        let f = match &cd {
+            ClassDef::Format1(_) => "f1",
+            ClassDef::Format2(t) => {
+                for rec in t.class_range_records().iter().take(4) {
+                    per.push(rec.population().to_string());
+                }
+                "f2"
+            }
+        };
+        let mut gets = vec![];
+        for g in &gids {
+            let c = cd.get(GlyphId16::new(*g));
+            // a non-zero class only for a glyph some record assigns it to
+            let ok = c == 0 || recs.iter().any(|(s, e, cls)| *s <= *g as u32 && *g as u32 <= *e && *cls == c as u32);
+            ctx.oracle("cls.get-assigned", ok, || format!("get({g}) {}", hex(bytes)), || format!("class {c} that no record assigns"));
+            let assigned = recs.iter().any(|(s, e, cls)| *s <= *g as u32 && *g as u32 <= *e && *cls != 0);
+            ctx.count(&format!("cls.get.{f}.{}", if c != 0 { "class" } else if assigned { "zero-but-assigned" } else { "zero" }));
+            if fmt == 1 {
+                let s = r16(bytes, 2).unwrap_or(0);
+                ctx.count(if *g < s { "cls.get.f1.below-start" } else if ((*g - s) as usize) < raw_pop { "cls.get.f1.inside" } else { "cls.get.f1.beyond" });
+            }
+            gets.push(c.to_string());
+        }
+        format!("{f} {pop} {it} {} | {}", join(&per), join(&gets))
+    });
+}
+
+// ------------------------------------------------------------------------------------------------
+// Device
+
+fn dev_str(d: &Device, ctx: &mut Ctx, bytes: &[u8]) -> String {
+    let (s, e) = (d.start_size(), d.end_size());
+    let raw_fmt = r16(bytes, 4).unwrap_or(0);
+    // exactly end − start + 1 values for the three delta formats, none otherwise
+    let want = if (1..=3).contains(&raw_fmt) && s <= e { (e - s) as usize + 1 } else { 0 };
+    let mut fv = Fnv::new();
+    let mut first = vec![];
+    let mut over = false;
+    let (mut neg, mut pos) = (false, false);
+    for v in d.iter() {
+        if fv.n > want {
+            over = true;
+            break;
+        }
+        neg |= v < 0;
+        pos |= v >= 0;
+        fv.add(v as u8 as u64);
+        if first.len() < 12 {
+            first.push(v.to_string());
+        }
+    }
+    ctx.oracle("dev.iter-count", !over && fv.n == want, || format!("device.iter {}", hex(bytes)), || format!("{} values, expected {want}", fv.n));
+    // every value lies in the range of its bit width
+    let bits = [0u32, 2, 4, 8][(raw_fmt.min(4) % 4) as usize];
+    if bits > 0 {
+        let lim = 1i32 << (bits - 1);
+        let ok = d.iter().take(64).all(|v| -lim <= v as i32 && (v as i32) < lim);
+        ctx.oracle("dev.value-range", ok, || format!("device.iter {}", hex(bytes)), || format!("a value outside {bits} bits"));
+    }
+    if neg {
+        ctx.count("dev.iter.negative-delta");
+    }
+    if pos {
+        ctx.count("dev.iter.positive-delta");
+    }
+    let per = match raw_fmt {
+        1 => 8,
+        2 => 4,
+        3 => 2,
+        _ => 1,
+    };
+    if want > 0 {
+        ctx.count(if want % per == 0 { "dev.iter.last-word-full" } else { "dev.iter.last-word-partial" });
+    }
+    format!("{} {}", fv.digest(), join(&first))
+}
+
+fn dev_case(ctx: &mut Ctx, bytes: &[u8]) {
+    let req = format!("hl.dev {}", hex(bytes));
+    ask(ctx, req, bytes, |ctx| {
+        let fd = FontData::new(bytes);
+        let raw_fmt = r16(bytes, 4).unwrap_or(0);
+        let a = match Device::read(fd) {
+            Err(e) => {
+                ctx.count("dev.read.err");
+                err_str(&e)
+            }
+            Ok(d) => {
+                ctx.count(&format!("dev.read.ok.fmt{}", if raw_fmt <= 3 || raw_fmt == 0x8000 { format!("{raw_fmt:x}") } else { "other".into() }));
+                if d.start_size() > d.end_size() {
+                    ctx.count("dev.read.ok.start>end");
+                }
+                format!("{} {} {} {}", d.start_size(), d.end_size(), d.delta_value().len(), dev_str(&d, ctx, bytes))
+            }
+        };
+        let b = match DeviceOrVariationIndex::read(fd) {
+            Err(e) => err_str(&e),
+            Ok(DeviceOrVariationIndex::Device(d)) => {
+                ctx.count("devorvar.device");
+                format!("D {}", dev_str(&d, ctx, bytes))
+            }
+            Ok(DeviceOrVariationIndex::VariationIndex(v)) => {
+                ctx.count("devorvar.variation-index");
+                let ix: DeltaSetIndex = v.into();
+                format!("V {} {}", ix.outer, ix.inner)
+            }
+        };
+        format!("{a} | {b}")
+    });
+}
+
+// ------------------------------------------------------------------------------------------------
+
+pub fn run(ctx: &mut Ctx) {
+    let k = if ctx.thorough { 5 } else { 1 };
+    // Coverage: get / iter / population
+    for round in 0..44 * k {
+        let uni = *ctx.rng.pick(&[8u32, 40, 300, 0x1_0000]);
+        let b = cov_any(&mut ctx.rng, uni, round % 3 == 0);
+        for v in variants(&mut ctx.rng, &b, 6) {
+            cov_case(ctx, &v);
+        }
+    }
+    // Coverage: intersects (+ RangeRecord)
+    for _ in 0..40 * k {
+        let uni = *ctx.rng.pick(&[8u32, 40, 300, 0x1_0000]);
+        let b = cov_any(&mut ctx.rng, uni, false);
+        for v in variants(&mut ctx.rng, &b, 4) {
+            covx_case(ctx, &v);
+        }
+    }
+    // ClassDef
+    for round in 0..44 * k {
+        let uni = *ctx.rng.pick(&[8u32, 40, 300, 0xFFF0]);
+        let b = class_any(&mut ctx.rng, uni, 3, round % 3 == 0);
+        for v in variants(&mut ctx.rng, &b, 6) {
+            cls_case(ctx, &v);
+        }
+    }
+    // Device / VariationIndex
+    for _ in 0..40 * k {
+        let b = device_any(&mut ctx.rng);
+        for v in variants(&mut ctx.rng, &b, 6) {
+            dev_case(ctx, &v);
+        }
+    }
+    // exhaustive: every format word class x small size ranges x data lengths
+    for fmt in [0u16, 1, 2, 3, 4, 0x8000, 0x8001, 0xFFFF] {
+        for start in [0u16, 1, 7, 0xFFFE, 0xFFFF] {
+            for d in 0..=9u16 {
+                for short in [0usize, 1] {
+                    let end = start.saturating_add(d);
+                    let n = (end - start) as usize + 1;
+                    let per = match fmt {
+                        1 => 8,
+                        2 => 4,
+                        3 => 2,
+                        _ => 1,
+                    };
+                    let words: Vec<u16> = (0..((n + per - 1) / per).saturating_sub(short)).map(|_| ctx.rng.next() as u16).collect();
+                    dev_case(ctx, &device(start, end, fmt, &words).v);
+                }
+            }
+        }
+    }
+    // a few long tables: the full size range in every format (32768 words for 8 bit deltas is left to
+    // the `layout` group; 2 bit deltas need 8192 words), hostile end < start with trailing data
+    for (s, e, fmt) in [(0u16, 999u16, 1u16), (0, 499, 2), (0, 299, 3), (300, 0, 3)] {
+        let n = (e as usize + 1).saturating_sub(s as usize);
+        let bits = [0u32, 2, 4, 8][fmt as usize];
+        let vals: Vec<i8> = (0..n).map(|_| ctx.rng.next() as i8 >> (8 - bits)).collect();
+        let mut words = pack_deltas(&vals, bits);
+        if n == 0 {
+            words = vec![0x1234, 0xFFFF];
+        }
+        dev_case(ctx, &device(s, e, fmt, &words).v);
+    }
+}
